@@ -291,7 +291,7 @@ example : ((h1Msg demoSite demoEnv (connAfter demoSite demoEnv (Conn.fresh demoE
     = some (200, [(ofString "content-type", ofString "text/plain"), (ofString "etag", ofString "\"e1\""),
                   (ofString "content-length", ofString "6"), (ofString "x-a", ofString "1")], ofString "hello\n") := by
   decide +kernel
-/-- a bodied history the hypotheses of `c08_history_free` admit: the handler read the body, the
+/-- a bodied history that meets the hypotheses of `c08_history_free`: the handler read the body, the
     connection stays open, the next request is answered -/
 example : (connAfter demoSite demoEnv (Conn.fresh demoEnv) [reqPostSink, reqMissing]).isOpen = true := by decide +kernel
 example : ((h1Msg demoSite demoEnv (Conn.fresh demoEnv) reqPostSink).2).map (fun o => (o.core.1, o.core.2.2))
@@ -317,6 +317,43 @@ example : expectedAnswerH2 demoSite demoEnv (ReqSt.init demoEnv) 65535
       [(ofString ":method", ofString "GET"), (ofString ":scheme", ofString "http"),
        (ofString ":path", ofString "/a.txt"), (ofString ":authority", ofString "h")] true
     = expectedAnswer demoSite demoEnv reqA := by decide +kernel
+
+/-! ### the same request over HTTP/1.0, HTTP/1.1 and HTTP/2: a bounded family
+
+No general theorem covers the response half of "same answer over every version" (the parse half is
+`c08_h1_h2_same_request_partial`).  What is checked here, by kernel evaluation, is a finite family
+on `famSite`: 4 methods × 6 targets × 2 header sets, each rendered as an HTTP/1.0 head, an
+HTTP/1.1 head and an HTTP/2 field list; the three answers (status, headers, body) are equal.
+The family covers 200, 304, 301, 400 (at parse time), 403, 404, 501 and the body-reading handler. -/
+
+def famSite : Site :=
+  { demoSite with nodes := demoSite.nodes ++ [(ofString "/srv/d", .dir), (ofString "/srv/d/", .dir)] }
+
+def famMethods : List String := ["GET", "HEAD", "OPTIONS", "DELETE"]
+def famTargets : List String := ["/a.txt", "/nope", "/a.txt~", "/d", "/s.cgi", "*"]
+def famExtras : List (List (String × String)) := [[], [("if-none-match", "\"e1\""), ("x-probe", "p")]]
+
+def famH1 (v : String) (m t : String) (x : List (String × String)) : Bytes :=
+  ofString (m ++ " " ++ t ++ " HTTP/1." ++ v ++ "\r\nHost: h\r\n" ++
+            String.join (x.map fun kv => kv.1 ++ ": " ++ kv.2 ++ "\r\n") ++ "\r\n")
+
+def famH2 (m t : String) (x : List (String × String)) : List (Bytes × Bytes) :=
+  [(ofString ":method", ofString m), (ofString ":scheme", ofString "http"), (ofString ":path", ofString t),
+   (ofString ":authority", ofString "h")] ++ x.map fun kv => (ofString kv.1, ofString kv.2)
+
+def famOk (m t : String) (x : List (String × String)) : Bool :=
+  let a1 := expectedAnswer famSite demoEnv (famH1 "1" m t x)
+  a1.isSome && expectedAnswerH2 famSite demoEnv (ReqSt.init demoEnv) 65535 (famH2 m t x) true == a1 &&
+  expectedAnswer famSite demoEnv (famH1 "0" m t x) == a1
+
+/-- bounded: every request of the family gets the same answer over HTTP/1.0, HTTP/1.1 and HTTP/2 -/
+theorem c08_same_answer_all_versions_family :
+    ∀ m ∈ famMethods, ∀ t ∈ famTargets, ∀ x ∈ famExtras, famOk m t x = true := by decide +kernel
+
+/-- the family is not all of one kind -/
+example : (famMethods.flatMap fun m => famTargets.map fun t =>
+             ((expectedAnswer famSite demoEnv (famH1 "1" m t [])).map (·.1)).getD 0).eraseDups.length ≥ 6 := by
+  decide +kernel
 
 /-- a plain field, and a semantic request both parsers accept alike -/
 example : PlainField ⟨9567⟩ (ofString "x-probe", ofString "p1") :=
